@@ -125,9 +125,8 @@ def gen_input(rng, kind, delim):
             fs[-1] = b"z"       # no trailing delimiter (that class is generated separately)
         lines.append(delim.join(fs))
     if kind == "many":
-        if rng.random() < 0.4:
-            # longer than a writer block (the extracted model's list reversal is quadratic in the line length)
-            lines.append(b"L" * 8300 + delim + b"tail")
+        if rng.random() < 0.6:
+            lines.append(b"L" * 20000 + delim + b"tail")        # longer than two writer blocks
         lines += [lines[0]] * 5
     if kind == "some":
         lines.append(b"")
@@ -147,10 +146,17 @@ def main(argv):
         return c.finish(rule="build failed")
     c.proofs(extra_trusted=["Python zlib/bz2 and the gzip/bzip2 command line tools as independent decoders",
                             "independent MurmurHash64A reference in checks/C06.py"])
+    if c.tier == "thorough":
+        coqchk(c)
     drv, dlog = build_driver("C06")
     if drv is None:
         c.broken.append("extraction/driver build failed: " + dlog[-600:])
     hx = hx_bin("hx_shard")
+    BS = 8192                                   # kBlockSize as regenerated (the driver prints the model's constant)
+    if drv:
+        kout_ = run_lines(drv, ["K"])[1]
+        if kout_ and kout_[0].startswith("K "):
+            BS = int(kout_[0].split()[1])
     rng = c.rng
     work = os.path.join(codeclog.scratch_dir(), "c06-%d" % os.getpid())
     shutil.rmtree(work, ignore_errors=True)
@@ -182,6 +188,47 @@ def main(argv):
                 c.broken.append("correspondence names model vs ParseArgs: -p %s -n %d model=%s impl=%s" % (p, n, mo[:100], o[:100]))
         c.cov["traces_validated_against_impl"] += len(nlines)
 
+    # ------------------------------------------------------------ option handling: real ParseArgs vs the model
+    combos = []
+    for fields in ("1-", "1", "2-3", "1,3", "3,1", "0", "2-1", "x", "1-2,2-3", ""):
+        combos.append({"fields": fields, "prefix": "p", "number": 3, "outputs": [], "compress": "none"})
+    for prefix in (None, "p", ""):
+        for number in (None, 0, 1, 2, 10, 11):
+            for outputs in ([], ["a"], ["a", "b"]):
+                for compress in ("none", "gzip", "bzip2", "xz", "GZIP", ""):
+                    if rng.random() < (1.0 if compress in ("none", "gzip") else 0.34):
+                        combos.append({"fields": "1-", "prefix": prefix, "number": number, "outputs": outputs, "compress": compress})
+    alines, mlines = [], []
+    for o in combos:
+        argv_ = ["-f", o["fields"]] if o["fields"] != "" else ["-f", ""]
+        if o["prefix"] is not None:
+            argv_ += ["--prefix", o["prefix"]]
+        if o["number"] is not None:
+            argv_ += ["--number", str(o["number"])]
+        argv_ += ["-c", o["compress"]] + o["outputs"]
+        if "" in argv_:
+            continue                                     # the line protocol of the harness cannot carry empty arguments
+        alines.append("N " + " ".join(argv_))
+        mlines.append("A %s %s %s %s %s" % (o["fields"].encode().hex(), "-" if o["prefix"] is None else (o["prefix"].encode().hex() or "e"),
+                                            "-" if o["number"] is None else o["number"],
+                                            ",".join(x.encode().hex() for x in o["outputs"]) or "-", o["compress"].encode().hex()))
+        c.count(("args", tuple(argv_)), bucket="options/%s" % ("prefix-number" if not o["outputs"] else "explicit-outputs"))
+    rc, aout, aerr = run_lines(hx, alines)
+    if len(aout) != len(alines):
+        c.broken.append("hx_shard died on option cases: %s" % aerr[-300:])
+    elif drv:
+        rc, amo, _ = run_lines(drv, mlines)
+        for l, a, b in zip(alines, amo, aout):
+            if a != b:
+                c.broken.append("correspondence option handling model vs ParseArgs: %s model=%s impl=%s" % (l, a[:100], b[:100]))
+                break
+        c.cov["traces_validated_against_impl"] += len(alines)
+        # oracle: whatever is accepted has at least one output (the shard index is taken modulo that number)
+        for l, b in zip(alines, aout):
+            if b.startswith("OK") and b.split(" ")[1] in ("-", ""):
+                c.violation("accepted-arguments-without-output: %s accepted with no output file (division by zero on the first line)" % l,
+                            {"op": "args", "how": "shard " + l[2:]})
+
     # ------------------------------------------------------------ tool runs
     specs = ["1-", "1", "2", "1-2", "2-", "1,3"]
     delims = [b"\t", b" ", b","]
@@ -199,6 +246,11 @@ def main(argv):
         for _ in range(150):
             runs.append({"n": rng.randrange(1, 18), "comp": rng.choice(("none", "gzip", "bzip2")), "spec": rng.choice(specs),
                          "delim": rng.choice(delims), "kind": rng.choice(["few", "some", "many"]), "naming": rng.choice(["prefix", "explicit"])})
+    # lines that end exactly at / around the 8192-byte block of the per-shard writer thread
+    # (ThreadedBufferedStream::write spills when current_ + length > end_; '\n' goes through Ensure(1))
+    for delta in (-2, -1, 0, 1, 2):
+        for comp in ("none", "gzip"):
+            runs.append({"n": 1 if delta % 2 == 0 else 2, "comp": comp, "spec": "1-", "delim": b"\t", "kind": "block-edge%+d" % delta, "naming": "prefix"})
     # classes with a known open finding, kept apart
     runs.append({"n": 5, "comp": "none", "spec": "1-", "delim": b"\t", "kind": "cr", "naming": "prefix"})
     runs.append({"n": 7, "comp": "none", "spec": "1", "delim": b"\t", "kind": "trailing-delim", "naming": "prefix"})
@@ -207,7 +259,11 @@ def main(argv):
     cli_budget = 12 if c.tier == "quick" else 60
     for ri, r in enumerate(runs):
         n, comp, spec, delim = r["n"], r["comp"], r["spec"], r["delim"]
-        if r["kind"] == "cr":
+        if r["kind"].startswith("block-edge"):
+            dlt = int(r["kind"][len("block-edge"):])
+            # every line is 8192+delta bytes with its newline: the k-th line ends k*delta bytes off a block edge
+            data = b"".join(bytes([97 + i]) * (8191 + dlt) + b"\n" for i in range(5)) + b"tail\n"
+        elif r["kind"] == "cr":
             data = b"a\r\nb\r\nplain\nx\r\r\n"
         elif r["kind"] == "trailing-delim":
             data = b"".join(b"k%d\t\nk%d\tv\nk%d\n" % (i, i, i) for i in range(12))
@@ -229,7 +285,7 @@ def main(argv):
         renv = dict(env)
         if comp != "none":
             renv.update({"LD_PRELOAD": hx_bin("libvcodec.so"), "VCODEC_LOG": logp, "VCODEC_DATA": "0"})
-        st, so, se = run_tool(argv_, stdin=data, timeout=60, cwd=d, env=renv)
+        st, so, se = codeclog.run_tool_limited(argv_, stdin=data, timeout=60, cwd=d, env=renv)
         bucket = "tool/n=%s/%s/%s/%s" % ("1" if n == 1 else "2-9" if n < 10 else "10-17", comp, r["kind"], r["naming"])
         c.count(("run", ri, n, comp, spec, data), bucket=bucket)
         how = "printf %%s '<input>' | shard -f %s -d '%s' -c %s %s" % (spec, delim.decode().replace("\t", "\\t"), comp, " ".join(args))
@@ -316,7 +372,7 @@ def main(argv):
         if r["kind"] in ("few", "some") and recs:
             d2 = os.path.join(d, "dir")
             data2 = b"\n".join(reversed(recs)) + b"\n"
-            st2, _, _ = run_tool([repo_bin("shard"), "-f", spec, "-d", delim.decode(), "-c", "none"] + ["m%d" % i for i in range(n)],
+            st2, _, _ = codeclog.run_tool_limited([repo_bin("shard"), "-f", spec, "-d", delim.decode(), "-c", "none"] + ["m%d" % i for i in range(n)],
                                  stdin=data2, timeout=60, cwd=d2, env=env)
             if st2 == 0:
                 for i in range(n):
@@ -328,11 +384,11 @@ def main(argv):
         # (5) dedupe commutes with sharding (multiset)
         if r["kind"] in ("few", "some", "many") and ri % 3 == 0:
             dd = [repo_bin("dedupe"), "-f", spec, "-d", delim.decode()]
-            st3, whole, _ = run_tool(dd, stdin=b"".join(l + b"\n" for l in recs), timeout=60)
+            st3, whole, _ = codeclog.run_tool_limited(dd, stdin=b"".join(l + b"\n" for l in recs), timeout=60)
             parts = []
             okd = st3 == 0
             for o in outs:
-                s4, po, _ = run_tool(dd, stdin=o, timeout=60)
+                s4, po, _ = codeclog.run_tool_limited(dd, stdin=o, timeout=60)
                 okd = okd and s4 == 0
                 parts += records(po)
             c.count(("dedupe", ri), bucket="dedupe-commutes")
@@ -345,6 +401,21 @@ def main(argv):
             ends = sum(1 for x in calls if x.rc == (1 if x.fn == "deflate" else 4))
             if ends != n:
                 c.broken.append("codec log of shard -c %s n=%d: %d members finished" % (comp, n, ends))
+            # the hand-off: each shard's bytes reach its codec in pieces of at most kBlockSize, a full
+            # block first whenever there is one (the model's `blocks`), and nothing is lost on the way
+            per = {}
+            for x in calls:
+                per.setdefault(x.id, []).append(x)
+            totals = sorted(sum(y.used() for y in v) for v in per.values())
+            if totals != sorted(len(o) for o in outs):
+                c.broken.append("codec log of shard -c %s n=%d: bytes consumed per stream %r != shard sizes %r" % (comp, n, totals[:6], sorted(len(o) for o in outs)[:6]))
+            for v in per.values():
+                runs_ = [y for y in v if y.flag == 0]
+                tot = sum(y.used() for y in v)
+                if any(y.ain > BS for y in runs_) or (tot >= BS and not any(y.ain == BS for y in runs_)) or (0 < tot < BS and runs_ and runs_[0].ain != tot):
+                    c.violation("writer-hand-off-not-in-blocks: a shard of %d bytes reached the codec in pieces %r" % (tot, [y.ain for y in runs_][:8]), rep)
+                    break
+            c.cov["distribution"]["codec-log/block-hand-off-checked"] = c.cov["distribution"].get("codec-log/block-hand-off-checked", 0) + len(per)
             for x in calls:
                 if x.flag in (4, 2) and x.ain != 0:
                     c.violation("finish-with-undefined-input: %s(FINISH) called with avail_in=%d on a shard writer" % (x.fn, x.ain), rep)
@@ -379,6 +450,30 @@ def main(argv):
                         c.broken.append("correspondence shard model vs bin/shard: run %d (n=%d %s %s): model=%s impl=%s" % (ri, r["n"], r["spec"], r["kind"], mo[:120], impl[:120]))
                         break
                 c.cov["traces_validated_against_impl"] += len(mlines)
+    # the same runs with the key hash COMPUTED by the Coq models of RangeFields (C10) and
+    # MurmurHash64A (C14) instead of imported from the implementation (inputs up to 20 kB:
+    # the extracted Murmur costs ~20 us per byte)
+    if drv and pending:
+        sel = [x for x in pending if len(x[2]) <= 20000]
+        tl = ["T %d %s %s %s" % (r["n"], r["spec"].encode().hex(), r["delim"].hex(), data.hex() if data else "-") for ri, r, data, recs, outs in sel]
+        rc, tout, terr = codeclog.run_lines_bigstack(drv, tl, timeout=1800)
+        if len(tout) != len(tl):
+            c.broken.append("C06 model driver (concrete key) produced %d lines for %d runs: %s" % (len(tout), len(tl), terr[-200:]))
+        else:
+            for (ri, r, data, recs, outs), mo in zip(sel, tout):
+                impl = "OK " + ",".join(o.hex() if o else "-" for o in outs)
+                if mo != impl:
+                    c.broken.append("correspondence shard model with Fields+Murmur key vs bin/shard: run %d (n=%d -f %s %s): model=%s impl=%s" % (ri, r["n"], r["spec"], r["kind"], mo[:120], impl[:120]))
+                    break
+            c.cov["traces_validated_against_impl"] += len(tl)
+            c.cov["distribution"]["model-with-computed-key-hash"] = len(tl)
+    # thorough: naming, option handling and key hashing again through the ASan+UBSan build of the harness
+    if c.tier == "thorough":
+        hl_asan = []
+        for ri, r, data, recs, outs in pending[:40]:
+            for l in recs[:200]:
+                hl_asan.append("H %s %s %s" % (r["spec"], r["delim"].hex(), l.hex() if l else "-"))
+        asan_lines(c, "hx_shard", nlines + alines + hl_asan, what="(ParseArgs, RangeFields, HashCallback)")
     # block sizes handed to the writer: model vs kBlockSize arithmetic
     if drv:
         rc, kout, _ = run_lines(drv, ["K"])
